@@ -128,6 +128,43 @@ def sink_terms(pt):
     return out
 
 
+def _is_loop_invariant(f, lp, t):
+    """no loop-carried value and no call executed inside the loop body occurs in t"""
+    bad = []
+
+    def visit(x):
+        if x[0] in ("loopphi", "phi") and isinstance(x[1], tuple) and x[1][0] == lp.header:
+            bad.append(x)
+        if x[0] == "call" and isinstance(x[3], int) and x[3] in lp.body:
+            bad.append(x)
+        return True
+
+    mir.walk(t, visit)
+    return not bad
+
+
+def _reach_skipping_invariant_sides(f, lp, start, defblocks):
+    """blocks reachable from start without passing a block of defblocks or the header; at a branch on a loop-invariant
+    condition only the sides from which a definition is still reachable are followed (the other side is a mode of the
+    whole call, not of this tuple)"""
+    seen = set()
+    st = [start]
+    avoid = set(defblocks) | {lp.header}
+    while st:
+        x = st.pop()
+        if x in seen or x in avoid or x not in lp.body:
+            continue
+        seen.add(x)
+        t = f.term(x)
+        succs = list(f.succ[x])
+        if t["k"] == "switch" and _is_loop_invariant(f, lp, f.operand(t["discr"], f.end_point(x))):
+            keep = [s for s in succs if f.reach_from([s], avoid=[lp.header]) & set(defblocks)]
+            if keep:
+                succs = keep
+        st.extend(succs)
+    return seen
+
+
 def memo_guard(f, lp, l, exclude=frozenset()):
     """Recognise the memo idiom for carried local l of loop lp. Returns (ok, reason)."""
     h = lp.header
@@ -186,6 +223,13 @@ def memo_guard(f, lp, l, exclude=frozenset()):
             if diff is None:
                 continue
             if not all(f.dominates(diff, d) for d in defblocks):
+                continue
+            # whenever the key differs, the cached value must be refreshed: no path from the 'differs' successor
+            # to the end of the iteration (or to a write) may bypass the definitions of l
+            reach = _reach_skipping_invariant_sides(f, lp, diff, defblocks)
+            bypass = any(h in f.succ[b] for b in reach) or any(
+                f.term(b)["k"] == "call" and is_cs_call(f, f.term(b)) in WRITES for b in reach)
+            if bypass:
                 continue
             # m := key under the same guard, and only there
             mv, mpreds = header_phi(f, h, m)
